@@ -280,6 +280,41 @@ def main():
             print(detail[-4000:])
         sys.exit(2)
 
+    checker_cmd_box = [""]
+
+    def fallback(frontend_failed, what):
+        # The deductive check cannot be run on the current text (%s). It is undecided. A bounded native stand-in for the
+        # property, where one exists, may still find a concrete failing input, which is then a replayed violation.
+        standin = None
+        try:
+            import backends
+            standin = backends.bounded_standin(pid, tier, seed, bdir)
+        except ImportError:
+            pass
+        rdir = os.path.join(VERIF, "evidence", "replay")
+        os.makedirs(rdir, exist_ok=True)
+        ev = {"property_id": pid, "tier": tier, "seed": seed, "level": "other",
+              "coverage": {"explanation": "The deductive check could not be run on the current source text (" + what + "), so NO obligation was decided deductively in this run. "
+                           "A bounded native stand-in (labelled bounded, never counted as proved) was run instead: %s" % (json.dumps(standin)[:1500] if standin else "none available"),
+                           "obligations": 0, "discharged": 0, "checker_cmd": checker_cmd_box[0], "trusted_base": obl.get("trusted_base", []),
+                           "frontend_error": frontend_failed[-2000:], "bounded": [standin] if standin else []},
+              "assumptions": obl.get("assumptions", []), "wall_s": round(time.time() - t_start, 2),
+              "violations": 1 if (standin and standin.get("violation")) else 0}
+        with open(os.path.join(VERIF, "evidence", "%s.json" % pid), "w") as fh:
+            json.dump(ev, fh, indent=1)
+        if standin and standin.get("violation"):
+            v = standin["violation"]
+            rp = os.path.join(rdir, "%s_bounded_standin.json" % pid)
+            with open(rp, "w") as fh:
+                json.dump({"property": pid, "obligation": "bounded-standin:" + standin.get("name", "?"), "backend": "native-bounded",
+                           "verifier_output": [frontend_failed[-3000:]], "input": v.get("input"), "real": v.get("real"),
+                           "expected": v.get("expected"), "reproduced": True, "found_by": standin.get("cmd"), "seed": seed,
+                           "note": "the deductive check could not be run on the edited code (" + what + "); violation found and replayed by the bounded stand-in"}, fh, indent=1)
+            print("VIOLATION property=%s replay=%s obligation=bounded-standin (deductive check undecided: %s)" % (pid, rp, what))
+            sys.exit(1)
+        undecided(what + ("; bounded stand-in found no violation: %s" % standin.get("summary") if standin else "; no bounded stand-in for this property"),
+                  frontend_failed)
+
     # 1. extraction from the current working tree
     havoc = []
     # the 256 generated bit-vector lemmas are only spliced in (and only then verified) when the cone contains them
@@ -289,6 +324,9 @@ def main():
         try:
             return ex.extract(gen, rep_path, havoc=tuple(havoc), light_magic=light_magic)
         except ex.ExtractError as e:
+            if "anchor-lost" in str(e):
+                # a contract or proof hint no longer finds the code it was written for: never an alarm by itself
+                fallback("extract: %s" % e, "anchor lost: %s" % e)
             undecided("extract: %s" % e)
     report = do_extract()
     lib = ensure_shim(build_root)
@@ -351,6 +389,7 @@ def main():
         cmd, res, diags, err, wall = run_verus(gen, lib, verus_mods, rlimit, threads, sd,
                                                timeout=spec.get("timeout_s", 1500) * (3 if tier == "thorough" else 1))
         checker_cmd = " ".join(cmd)
+        checker_cmd_box[0] = checker_cmd
         if res is None:
             undecided("verus produced no result", err)
         vr = res.get("verification-results", {})
@@ -496,39 +535,7 @@ def main():
                                       "failures": fails_i, "cmd": " ".join(cmd_i), "wall_s": round(wall_i, 2)}
             total_smt_ms += tms
     if frontend_failed is not None:
-        # Verus cannot ingest the current text of a function that is under contract (or ghost code no longer type-checks
-        # against a changed representation): the deductive check is undecided. A bounded native stand-in for the property,
-        # where one exists, may still find a concrete failing input, which is then a replayed violation.
-        standin = None
-        try:
-            import backends
-            standin = backends.bounded_standin(pid, tier, seed, bdir)
-        except ImportError:
-            pass
-        rdir = os.path.join(VERIF, "evidence", "replay")
-        os.makedirs(rdir, exist_ok=True)
-        ev = {"property_id": pid, "tier": tier, "seed": seed, "level": "other",
-              "coverage": {"explanation": "Verus could not ingest the current source text (front-end error), so NO obligation was decided deductively in this run. "
-                           "A bounded native stand-in (labelled bounded, never counted as proved) was run instead: %s" % (json.dumps(standin)[:1500] if standin else "none available"),
-                           "obligations": 0, "discharged": 0, "checker_cmd": checker_cmd, "trusted_base": obl.get("trusted_base", []),
-                           "frontend_error": frontend_failed[-2000:], "bounded": [standin] if standin else []},
-              "assumptions": obl.get("assumptions", []), "wall_s": round(time.time() - t_start, 2),
-              "violations": 1 if (standin and standin.get("violation")) else 0}
-        with open(os.path.join(VERIF, "evidence", "%s.json" % pid), "w") as fh:
-            json.dump(ev, fh, indent=1)
-        if standin and standin.get("violation"):
-            v = standin["violation"]
-            rp = os.path.join(rdir, "%s_bounded_standin.json" % pid)
-            with open(rp, "w") as fh:
-                json.dump({"property": pid, "obligation": "bounded-standin:" + standin.get("name", "?"), "backend": "native-bounded",
-                           "verifier_output": [frontend_failed[-3000:]], "input": v.get("input"), "real": v.get("real"),
-                           "expected": v.get("expected"), "reproduced": True, "found_by": standin.get("cmd"), "seed": seed,
-                           "note": "Verus could not ingest the edited code; violation found and replayed by the bounded stand-in"}, fh, indent=1)
-            print("VIOLATION property=%s replay=%s obligation=bounded-standin (verus undecided: front-end error)" % (pid, rp))
-            sys.exit(1)
-        undecided("verus front-end error (unsupported construct in a contracted function, or ghost code no longer type-checks after a "
-                  "representation change)%s" % ("; bounded stand-in found no violation: %s" % standin.get("summary") if standin else "; no bounded stand-in for this property"),
-                  frontend_failed)
+        fallback(frontend_failed, "verus front-end error: unsupported construct in a contracted function, or ghost code no longer type-checks after a representation change")
     # merge runs: an obligation failing in one seed and passing in another is unstable
     first = runs[0]
     for fq, ent in first["results"].items():
